@@ -126,6 +126,8 @@ func runC11(p *Program, r *Report) {
 	checkSortBeforeReturn(p, r, a)
 	checkDestroyPreState(p, r, a)
 	checkDelData(p, r, a)
+	r.Rule("R11h", "FULL-HASH-KEYS: the verifier-state update never identifies a node by a truncated hash (two added leaves, or a leaf and a root, with a common 12-byte prefix would collapse into one entry of the update data)")
+	checkFullHashKeys(p, r, "R11h", "(*Stump).Update", []string{"(*Stump).Update"})
 	r.Rule("R11f", "SUCCESS-RETURNS-DATA: every success return of the verifier-state update hands out the UpdateData whose fields were all stored")
 	checkSuccessReturnsData(p, r, "R11f")
 }
@@ -534,40 +536,49 @@ func runC07(p *Program, r *Report) {
 	}
 	r.Discharge("R07c", key, posOf(p, add.call), "remove phase dominates the add phase, which receives the remove phase's result", true)
 	r.Rule("R07f", "FULL-HASH-KEYS: the cached-proof update and undo never identify a leaf by a truncated hash (the 12-byte map key of the pointer forest): two different leaves with a common prefix would be taken for each other")
-	{
-		var entries []*ssa.Function
-		for _, n := range []string{"(*Proof).Update", "(*Proof).Undo"} {
-			if f := p.Func(n); f != nil {
-				entries = append(entries, f)
-			}
+	checkFullHashKeys(p, r, "R07f", "(*Proof).Update+Undo", []string{"(*Proof).Update", "(*Proof).Undo"})
+	r.Rule("R07d", "NO-ARITHMETIC-POSITIONS: in the add phase of the cached-proof update no position list computed from the leaf count selects from the update-data nodes (remembered leaves are found by hash)")
+	if g := add.call.Common().StaticCallee(); g != nil {
+		checkNoArithmeticPositions(p, r, "R07d", g)
+	}
+}
+
+// checkFullHashKeys: no call reachable from the entries returns a truncated
+// hash (a byte array of the package shorter than a full hash).
+func checkFullHashKeys(p *Program, r *Report, rule, label string, names []string) {
+	var entries []*ssa.Function
+	for _, n := range names {
+		if f := p.Func(n); f != nil {
+			entries = append(entries, f)
+		} else {
+			r.MissingAnchor(rule, n, "entry not found")
 		}
-		var hit ssa.Instruction
-		nCalls := 0
-		for _, g := range sortedFuncs(p, p.StaticReach(entries...)) {
-			for _, sc := range callsIn(p, g) {
-				nCalls++
-				res := sc.call.Common().Signature().Results()
-				for i := 0; i < res.Len(); i++ {
-					if nt := namedOf(res.At(i).Type()); nt != nil && nt.Obj().Pkg() == p.Types {
-						if arr, ok := nt.Underlying().(*types.Array); ok && arr.Len() < 32 {
-							if bt, ok := arr.Elem().Underlying().(*types.Basic); ok && bt.Kind() == types.Byte && hit == nil {
-								hit = sc.call
-							}
+	}
+	if len(entries) == 0 {
+		return
+	}
+	var hit ssa.Instruction
+	nCalls := 0
+	for _, g := range sortedFuncs(p, p.StaticReach(entries...)) {
+		for _, sc := range callsIn(p, g) {
+			nCalls++
+			res := sc.call.Common().Signature().Results()
+			for i := 0; i < res.Len(); i++ {
+				if nt := namedOf(res.At(i).Type()); nt != nil && nt.Obj().Pkg() == p.Types {
+					if arr, ok := nt.Underlying().(*types.Array); ok && arr.Len() < 32 {
+						if bt, ok := arr.Elem().Underlying().(*types.Basic); ok && bt.Kind() == types.Byte && hit == nil {
+							hit = sc.call
 						}
 					}
 				}
 			}
 		}
-		key := "(*Proof).Update+Undo/truncated-hash"
-		if hit != nil {
-			r.Violate("R07f", key, posOf(p, hit), "a truncated hash is computed on the cached-proof path (in "+p.FuncName(hit.Parent())+"): leaves are identified by less than their full hash", "in "+p.FuncName(hit.Parent()))
-		} else {
-			r.Discharge("R07f", key, p.Pos(upd.Pos()), fmt.Sprintf("none of the %d calls reachable from the cached-proof update and undo returns a truncated hash", nCalls), true)
-		}
 	}
-	r.Rule("R07d", "NO-ARITHMETIC-POSITIONS: in the add phase of the cached-proof update no position list computed from the leaf count selects from the update-data nodes (remembered leaves are found by hash)")
-	if g := add.call.Common().StaticCallee(); g != nil {
-		checkNoArithmeticPositions(p, r, "R07d", g)
+	key := label + "/truncated-hash"
+	if hit != nil {
+		r.Violate(rule, key, posOf(p, hit), "a truncated hash is computed on this path (in "+p.FuncName(hit.Parent())+"): nodes are identified by less than their full hash, so two different nodes with a common prefix are taken for each other", "in "+p.FuncName(hit.Parent()))
+	} else {
+		r.Discharge(rule, key, p.Pos(entries[0].Pos()), fmt.Sprintf("none of the %d calls reachable from %s returns a truncated hash", nCalls, label), true)
 	}
 }
 
